@@ -6,7 +6,7 @@ generate  transition cover (tools/graphwalk.py) of the reduced Paginate state gr
 replay    harness/mcp/c17_paginate_test.go: real Server + real Client over in-memory transports, 4 feature kinds
 judge     PaginateMon.tla (property only -> verdict), PaginateTrace.tla (strict -> drift)
 """
-import base64, json, os, re
+import base64, json, os, re, subprocess, threading, time
 import vlib, graphwalk
 
 PID = "C17"
@@ -45,41 +45,78 @@ def cover_histories(v, seed, tier):
     return rows
 
 
-def run_harness(out, hist_path, seed, nrand, ncur, narb, cursor_replay=None, race=False):
-    """Runs the Go harness; when the process dies inside the code under test the pending line (the request in
-    flight, err=crash) is appended to the log and the harness is restarted after the crashed job."""
-    obs = os.path.join(out, "obs.ndjson")
-    all_rows, skip, outputs, exhausted = [], 0, [], False
+def run_shard(binpath, shard, nshards, part, env, timeout, result):
+    """One shard of the harness (jobs with index % nshards == shard). When the process dies inside the code under
+    test, the pending line (the request in flight, err=crash) is appended to the log and the shard is restarted
+    after the crashed job."""
+    rows, outputs, skip, exhausted = [], [], 0, False
     for attempt in range(MAX_RESTARTS + 1):
-        part = os.path.join(out, "obs_part.ndjson")
         for p in (part, part + ".pending"):
             if os.path.exists(p):
                 os.remove(p)
-        env = {"VERIF_IN": hist_path, "VERIF_OUT": part, "VERIF_SEED": seed, "VERIF_RANDOM": nrand,
-               "VERIF_CURSORS": ncur, "VERIF_CURSORN": narb, "VERIF_SKIP": skip}
-        if cursor_replay:
-            env["VERIF_CURSOR_REPLAY"] = ",".join(cursor_replay)
-        rc, gout, wall = vlib.go_test("mcp", "^TestVerif_C17$", HARNESS, env=env, race=race, timeout=1500)
-        vlib.go_must_build(rc, gout, PID)
+        e = dict(os.environ)
+        e.update({k: str(x) for k, x in env.items()})
+        e.update({"VERIF_OUT": part, "VERIF_SKIP": str(skip), "VERIF_SHARD": str(shard), "VERIF_SHARDS": str(nshards)})
+        try:
+            p = subprocess.run([binpath, "-test.run", "^TestVerif_C17$", "-test.count", "1", "-test.timeout", "%ds" % timeout],
+                               cwd=os.path.join(vlib.REPO, "mcp"), env=e, stdout=subprocess.PIPE, stderr=subprocess.STDOUT,
+                               timeout=timeout + 60, text=True, errors="replace")
+            rc, gout = p.returncode, p.stdout
+        except subprocess.TimeoutExpired as ex:
+            rc, gout = 124, (ex.stdout or b"").decode(errors="replace") if isinstance(ex.stdout, bytes) else (ex.stdout or "")
         outputs.append(gout)
-        rows = vlib.read_ndjson(part) if os.path.exists(part) else []
-        all_rows.extend(rows)
+        rows.extend(vlib.read_ndjson(part) if os.path.exists(part) else [])
         pend = vlib.read_ndjson(part + ".pending") if os.path.exists(part + ".pending") else []
-        if rc == 0:
+        if rc == 0 or ("DATA RACE" in gout and not pend):
             break
-        if "DATA RACE" in gout and not pend:
-            break
-        if not pend:
-            raise vlib.MachineryError("C17 harness failed without a request in flight:\n" + gout[-3000:])
+        if rc == 124 or not pend:
+            result[shard] = ("error", "C17 harness shard %d failed without a request in flight (rc %d):\n%s" % (shard, rc, gout[-3000:]))
+            return
         crash = pend[0]
         crash["panic"] = "\n".join([l for l in gout.splitlines() if l.startswith("panic:") or l.startswith("fatal error:")][:2])
-        all_rows.append(crash)
+        rows.append(crash)
         skip = crash["job"] + 1
     else:
         exhausted = True  # the crash lines recorded so far are still judged; coverage is incomplete
     for p in (part, part + ".pending"):
         if os.path.exists(p):
             os.remove(p)
+    result[shard] = ("ok", rows, "\n".join(outputs), exhausted)
+
+
+def run_harness(out, hist_path, seed, nrand, ncur, narb, cursor_replay=None, race=False, nshards=4):
+    """Builds the test binary once (go test -c through vlib.go_test, overlay) and runs it in nshards processes."""
+    wd = vlib.scratch("c17bin-")
+    binpath = os.path.join(wd, "c17.test")
+    rc, gout, wall = vlib.go_test("mcp", "^$", HARNESS, race=race, timeout=900, extra_args=["-c", "-o", binpath])
+    vlib.go_must_build(rc, gout, PID)
+    if rc != 0 or not os.path.exists(binpath):
+        raise vlib.MachineryError("C17 harness does not build:\n" + gout[-3000:])
+    env = {"VERIF_IN": hist_path, "VERIF_SEED": seed, "VERIF_RANDOM": nrand, "VERIF_CURSORS": ncur, "VERIF_CURSORN": narb}
+    if cursor_replay:
+        env["VERIF_CURSOR_REPLAY"] = ",".join(cursor_replay)
+    result, threads = {}, []
+    for i in range(nshards):
+        t = threading.Thread(target=run_shard, args=(binpath, i, nshards, os.path.join(out, "obs_part%d.ndjson" % i), env, 1500, result))
+        t.start()
+        threads.append(t)
+    for t in threads:
+        t.join()
+    all_rows, outputs, exhausted = [], [], False
+    for i in range(nshards):
+        r = result.get(i)
+        if r is None or r[0] != "ok":
+            raise vlib.MachineryError(r[1] if r else "C17 harness shard %d died" % i)
+        all_rows.extend(r[1])
+        outputs.append(r[2])
+        exhausted = exhausted or r[3]
+    # traces in job order (a trace = consecutive lines of one job within its shard)
+    order, keyed = {}, []
+    for n, r in enumerate(all_rows):
+        keyed.append((r.get("job", 0), n, r))
+    keyed.sort(key=lambda x: (x[0], x[1]))
+    all_rows = [r for (_, _, r) in keyed]
+    obs = os.path.join(out, "obs.ndjson")
     vlib.write_ndjson(obs, all_rows)
     return obs, all_rows, "\n".join(outputs), exhausted
 
@@ -109,6 +146,13 @@ def run(tier, seed, replay):
         "in-memory transports; one client session per server; TTL 0 (no client-side caching of list results)",
         "TLC exhaustive results are for the stated small constants"]
     out = vlib.outdir(PID)
+    phases, t_last = {}, [time.time()]
+
+    def phase(name):
+        now = time.time()
+        phases[name] = round(now - t_last[0], 1)
+        t_last[0] = now
+    v.cov["phase_wall_s"] = phases
     for f in os.listdir(out):  # stale violation files of earlier runs
         if f.startswith("violation-") and not (replay and os.path.abspath(replay) == os.path.join(out, f)):
             os.remove(os.path.join(out, f))
@@ -120,14 +164,27 @@ def run(tier, seed, replay):
     v.add_tlc(cfg, res)
     if not res.ok:
         raise vlib.MachineryError("model violates %s: the Paginate model no longer satisfies its own invariants" % res.violation)
-    # 1b. vacuity witnesses: these must be violated
-    for wit in ("NeverStaleCursor", "NeverDoneMutated", "NeverUnstableSeen", "NeverMultiPage"):
-        cfgtxt = open(os.path.join(vlib.SPEC, "Paginate_mc_quick.cfg")).read()
-        cfgtxt = cfgtxt.split("INVARIANTS")[0] + "INVARIANT %s\n" % wit
-        r2 = vlib.run_tlc("PaginateMC", "wit.cfg", extra_files={"wit.cfg": cfgtxt}, timeout=300, workers=2)
-        if r2.violation != wit:
-            raise vlib.MachineryError("vacuity: witness %s not reachable (%s)" % (wit, r2.error or r2.violation))
+    phase("model")
+    # 1b. vacuity witnesses: these must be violated (run side by side, small constants)
+    wits = ("NeverStaleCursor", "NeverDoneMutated", "NeverUnstableSeen", "NeverMultiPage")
+    witres = {}
 
+    def one_witness(wit):
+        cfgtxt = ("SPECIFICATION MCSpec\nCONSTANTS\n  Ids = {1,2,3,4}\n  PageSizes = {1,2}\n  MaxMut = 2\n  MaxTrav = 1\n"
+                  "CONSTRAINT Bound\nVIEW MCView\nINVARIANT %s\n" % wit)
+        witres[wit] = vlib.run_tlc("PaginateMC", "wit.cfg", extra_files={"wit.cfg": cfgtxt}, timeout=300, workers=1, heap_gb=1)
+
+    threads = [threading.Thread(target=one_witness, args=(w,)) for w in wits]
+    for t in threads:
+        t.start()
+    for t in threads:
+        t.join()
+    for wit in wits:
+        r2 = witres.get(wit)
+        if r2 is None or r2.violation != wit:
+            raise vlib.MachineryError("vacuity: witness %s not reachable (%s)" % (wit, r2 and (r2.error or r2.violation)))
+
+    phase("witnesses")
     # 2. histories
     hist_path = os.path.join(out, "histories.ndjson")
     cursor_replay = None
@@ -145,10 +202,12 @@ def run(tier, seed, replay):
         nrand, ncur, narb = (400, 24, 150) if tier == "quick" else (6000, 200, 400)
     vlib.write_ndjson(hist_path, rows)
 
+    phase("generate")
     # 3. run on the real code
     obs, obs_rows, gout, exhausted = run_harness(out, hist_path, seed, nrand, ncur, narb, cursor_replay, race=(tier == "thorough"))
     if "DATA RACE" in gout:
         v.violation("race", "data race reported by the race detector", {"output": gout[-3000:]})
+    phase("go")
     traces = vlib.split_traces(obs_rows)
     v.cov["evaluations"] = sum(1 for r in obs_rows if r.get("ev") in ("page", "iter", "iterrun", "cursor"))
     v.cov["traces_validated_against_impl"] = len(traces)
@@ -193,6 +252,7 @@ def run(tier, seed, replay):
                   "lines": [{k: r[k] for k in ("ev", "op", "id", "cls", "ids", "more", "err", "seq") if r.get(k) not in (None, "", [], 0)}
                             for r in trows[1:9]]})
 
+    phase("stats")
     # 4. monitor: the verdict
     fails, mres = vlib.run_monitor("PaginateMon", "PaginateMon.cfg", obs, timeout=1500, heap_gb=8)
     v.add_tlc("PaginateMon", mres)
@@ -218,6 +278,7 @@ def run(tier, seed, replay):
             f["monfail"], f["line"], tid, head.get("kind"), head.get("ps"),
             json.dumps({k: e.get(k) for k in ("ev", "cls", "op", "ids", "more", "err", "seq", "man", "alive", "panic") if e.get(k) not in (None, "", [])})[:400]), rep)
 
+    phase("monitor")
     if exhausted and not v.violations:
         raise vlib.MachineryError("the harness process crashed more than %d times (all known findings): coverage incomplete" % MAX_RESTARTS)
     v.cov["harness_restarts_exhausted"] = exhausted
@@ -239,4 +300,5 @@ def run(tier, seed, replay):
         tid, start, trows = vlib.trace_of_line(tr2, hwm)
         v.drift.append("trace %s line %d not explained by the Paginate spec: %s" % (tid, hwm, json.dumps(cur_rows[hwm - 1])[:300]))
         cur_rows = [r for (t2, s, tr) in tr2 if t2 != tid for r in tr]
+    phase("strict")
     return v.finish()
